@@ -17,7 +17,8 @@ RULE = ("Real client and server application stacks (request submitted directly t
         "holds no client transaction, no timer, no queue entry and emitted no frame after the outcome; the serving stack holds "
         "no transaction or timer. Non-trivial: >= 1 fault hit a frame of the transaction and (segmentation in some direction or "
         ">= 1 retransmission observed). Distinct by (configuration, plan)."
-        " Also: an unsegmented request is transmitted at most retries+1 times and decided by (retries+1) x APDU timeout; every single drop/delay followed by every later silence point on segmented configurations.")
+        " Also: an unsegmented request is transmitted at most retries+1 times and decided by (retries+1) x APDU timeout; every single drop/delay followed by every later silence point on segmented configurations."
+        " The peer's I-Am recorded while the transaction is under way (know_at).")
 ASSUMPTIONS = [
     "T_max = (retries+1) * (Tout + (segments+4) * (retries+1) * 4 * Tseg) + Tapp + think + injected delays + 30 s (deliberately generous)",
     "an abort is a legal outcome here; whether a single fault must be survived is C05",
